@@ -18,6 +18,7 @@ use crate::snapshot::{diff_snaps, snapshot};
 use crate::Args;
 use std::collections::{BTreeMap, BTreeSet};
 use std::sync::atomic::Ordering;
+use vfs::async_vfs::AsyncVfsPath;
 
 fn cfgs(rng: &mut Rng) -> Cfg {
     // async-std file I/O goes through a blocking thread pool (~100 us and several futex calls per operation), so
@@ -812,4 +813,136 @@ pub fn transfer_case(a: &Args, idx: u64, acc: &mut Acc) {
         }
     }
     acc.note("config_shapes", cfg.shape());
+}
+
+/// Deep state of one layer seen through its own async view: path -> (is_dir, bytes, created, modified).
+/// `accessed` is left out: reading a physical file to take this very snapshot may legitimately advance it.
+async fn adeep(view: &AsyncVfsPath) -> BTreeMap<String, String> {
+    use async_std::io::ReadExt;
+    use futures::stream::StreamExt;
+    let mut out = BTreeMap::new();
+    let mut todo = vec![view.clone()];
+    while let Some(d) = todo.pop() {
+        let mut kids = vec![];
+        if let Ok(mut s) = d.read_dir().await {
+            while let Some(c) = s.next().await {
+                kids.push(c);
+            }
+        }
+        for c in kids {
+            let m = c.metadata().await;
+            let txt = match &m {
+                Ok(m) if m.file_type == vfs::VfsFileType::Directory => format!("dir created={:?} modified={:?}", m.created, m.modified),
+                Ok(m) => {
+                    let mut b = vec![];
+                    if let Ok(mut r) = c.open_file().await {
+                        let _ = r.read_to_end(&mut b).await;
+                    }
+                    format!("file len={} bytes={} created={:?} modified={:?}", m.len, String::from_utf8_lossy(&b), m.created, m.modified)
+                }
+                Err(e) => format!("metadata error {:?}", crate::ops::ErrInfo::from_vfs(e).kind),
+            };
+            if matches!(&m, Ok(m) if m.file_type == vfs::VfsFileType::Directory) {
+                todo.push(c.clone());
+            }
+            out.insert(c.as_str().to_string(), txt);
+        }
+    }
+    out
+}
+
+/// C08 through the async port: an AsyncOverlayFS with 2-3 pre-populated layers (memory / physical) runs an untyped
+/// history including timestamp setters; after every step the deep state of every lower layer, read through the
+/// layer's own view, must equal what it was before the history started.
+pub fn async_lower_untouched_case(a: &Args, idx: u64, acc: &mut Acc) {
+    let mut rng = Rng::derive(a.seed, "c08-async", idx);
+    let n = rng.range(2, 4);
+    let mut layers = vec![];
+    for i in 0..n {
+        // physical lower layers are the ones that can be re-timed at all (AsyncMemoryFS has no setters)
+        let phys = if i == 0 { rng.chance(1, 4) } else { rng.chance(1, 2) };
+        layers.push((if phys { Cfg::Phys } else { Cfg::Mem }, String::new()));
+    }
+    let cfg = Cfg::Ovl(layers);
+    let universe = Universe::new(vec![*rng.pick(&["a", "é", "a.b"]), *rng.pick(&["ab", "b", ".h"])], 2);
+    let ab = match guard(|| block_on(abuild(&cfg, vec![0]))) {
+        Ok(b) => b,
+        Err(_) => {
+            acc.count("setup_failed", 1);
+            return;
+        }
+    };
+    // every layer gets its own random well-formed tree over the universe (parents sort before children)
+    let mut layers_txt = vec![];
+    for (i, view) in ab.layer_views.iter().enumerate() {
+        let mut tree: BTreeMap<String, Node> = BTreeMap::new();
+        let mut sorted = universe.paths.clone();
+        sorted.sort();
+        for p in &sorted {
+            let par = parent_of(p);
+            let par_ok = par.is_empty() || matches!(tree.get(&par), Some(Node::Dir));
+            if par_ok && rng.chance(if i == 0 { 1 } else { 2 }, 3) {
+                tree.insert(p.clone(), if rng.chance(1, 2) { Node::Dir } else { Node::File(format!("L{}:{}", i, p).into_bytes()) });
+            }
+        }
+        layers_txt.push(format!("layer {}: {:?}", i, tree.iter().map(|(p, n)| format!("{}{}", p, if matches!(n, Node::Dir) { "/" } else { "" })).collect::<Vec<_>>()));
+        if guard(|| block_on(awrite_tree(view, "", &tree))).map(|r| r.is_err()).unwrap_or(true) {
+            acc.count("setup_failed", 1);
+            return;
+        }
+    }
+    let lower: Vec<AsyncVfsPath> = ab.layer_views.iter().skip(1).cloned().collect();
+    let before: Vec<BTreeMap<String, String>> = lower.iter().map(|v| block_on(adeep(v))).collect();
+    let mut d = Domain::untyped();
+    for w in d.weights.iter_mut() {
+        if w.0 == "set_time" {
+            w.1 = 10;
+        }
+    }
+    d.hold_handles = false;
+    let probe = universe.paths.clone();
+    let mut trace = vec![];
+    acc.evaluations += 1;
+    let nsteps = rng.range(4, 10);
+    for step in 0..nsteps {
+        let snap = asnapshot(&ab.root, &probe);
+        let tree = snap.tree();
+        let op = gen_op(&mut rng, &d, &universe, &tree);
+        let class = tree.class(op.path());
+        let r = aexec(&ab.root, &op);
+        trace.push(format!("{} [{}] => {}", op.render(), class.name(), crate::ops::res_class(&r)));
+        acc.steps += 1;
+        acc.count("async_lower_layer_comparisons", lower.len() as u64);
+        for (li, v) in lower.iter().enumerate() {
+            let now = block_on(adeep(v));
+            if now != before[li] {
+                let mut what = String::new();
+                for (p, t) in &before[li] {
+                    match now.get(p) {
+                        None => { what = format!("{} removed (was {})", p, t); break; }
+                        Some(t2) if t2 != t => { what = format!("{}: {} -> {}", p, t, t2); break; }
+                        _ => {}
+                    }
+                }
+                if what.is_empty() {
+                    if let Some((p, t)) = now.iter().find(|(p, _)| !before[li].contains_key(*p)) {
+                        what = format!("{} appeared ({})", p, t);
+                    }
+                }
+                let field = if what.contains(" removed") { "removed" } else if what.contains(" appeared") { "appeared" } else if what.contains("bytes=") && what.split(" -> ").map(|s| s.split(" created=").next().unwrap_or("").to_string()).collect::<BTreeSet<_>>().len() > 1 { "content" } else { "times" };
+                acc.violate(Violation {
+                    property: "C08",
+                    signature: format!("async-lower-layer-modified|{}|{}|{}|{}", op.name(), class.name(), field, cfg.shape()),
+                    summary: format!("async overlay: {} changed lower layer {}: {}", op.render(), li + 1, what),
+                    detail: J::obj().set("tag", J::s("c08-async")).set("seed", J::i(a.seed)).set("history", J::i(idx)).set("config", J::s(cfg.desc())).set("layers", J::arr(layers_txt.iter().map(J::s))).set("trace", J::arr(trace.iter().map(J::s))),
+                    order: idx * 1000 + step as u64,
+                });
+                return;
+            }
+        }
+        acc.fingerprints.insert(asnapshot(&ab.root, &probe).fingerprint() ^ 0xC8);
+    }
+    if idx < 2 {
+        acc.sample(idx, J::obj().set("async_lower_untouched_case", J::i(idx)).set("config", J::s(cfg.desc())).set("layers", J::arr(layers_txt.iter().map(J::s))).set("ops", J::arr(trace.iter().map(J::s))));
+    }
 }
